@@ -157,6 +157,14 @@ func (s *Solver) ref(t *Term) string {
 			s.send("(declare-const " + t.name + " " + t.sort.String() + ")")
 			s.declared[t.name] = s.level
 			s.declStack[s.level] = append(s.declStack[s.level], t.name)
+			if t.defn != nil {
+				key := fmt.Sprintf("defn@%p", t.defn)
+				if _, done := s.declared[key]; !done {
+					s.declared[key] = s.level
+					s.declStack[s.level] = append(s.declStack[s.level], key)
+					s.send("(assert " + s.ref(t.defn.cons) + ")")
+				}
+			}
 		}
 		return t.name
 	}
@@ -218,7 +226,11 @@ func (s *Solver) Check() SatResult {
 		}
 		break
 	}
-	s.Time += time.Since(start)
+	d := time.Since(start)
+	s.Time += d
+	if s.log != nil && d > 50*time.Millisecond {
+		fmt.Fprintf(s.log, "; SLOW %v\n", d)
+	}
 	return res
 }
 
